@@ -131,6 +131,11 @@ pub fn dash_path(path: &Path, dash_array: &[f32], mut dash_offset: f32) -> Path 
                         dashed.move_to(pt.x, pt.y);
                     }
                     state.remaining_length -= len;
+                } else {
+                    // a LineTo with no current point begins a subpath at `pt`,
+                    // just as a MoveTo would
+                    start_point = Some(pt);
+                    dashed.move_to(pt.x, pt.y);
                 }
                 cur_pt = Some(pt);
             }
